@@ -180,6 +180,7 @@ def c10_vocab(run):
     run.min_instances('RF37', 6)
     rf_vocab.rf15(run)
     run.min_instances('RF15', 3)
+    rf_vocab.rf80(run)
 
 
 def c17_rf2(run):
@@ -309,6 +310,7 @@ def c13_rf16(run):
     rf_proto.rf24(run)
     run.min_instances('RF24', 12)
     rf_proto.rf16l(run)
+    rf_proto.rf79(run)
 
 
 def c14_rf16f(run):
@@ -319,6 +321,7 @@ def c14_rf16f(run):
     run.min_instances('RF16d', 8)
     rf_flow.rf53(run)
     rf_proto.rf76(run)
+    rf_proto.rf79(run)
 
 
 def c02_rf7a(run):
